@@ -245,6 +245,35 @@ fn change_oracle(
                 ));
             }
         }
+        // by search: the request must find a tree it applies to if one exists
+        if id.is_none() && judged {
+            for t in 0..before.len() {
+                let (c, f, reserved) = before[t];
+                if reserved || !mclass.is_none_or(|k| k == c) || f < *mfree {
+                    continue;
+                }
+                let r = m.tree_range(t);
+                match top {
+                    Some(TreeOp::Offline) if !m.offline[t] && m.free_in(r.clone()) == r.len() => {
+                        out.push(Violation::new(
+                            "C15",
+                            "offline by search failed although an unreserved entirely free matching tree exists",
+                            format!("{}: tree {t} is (C{c},{f},res={reserved})", op.short()),
+                        ));
+                        break;
+                    }
+                    Some(TreeOp::Online) if m.offline[t] && f == 0 => {
+                        out.push(Violation::new(
+                            "C15",
+                            "online by search failed although an offline matching tree exists",
+                            format!("{}: tree {t} is offline (C{c},{f},res={reserved})", op.short()),
+                        ));
+                        break;
+                    }
+                    _ => {}
+                }
+            }
+        }
         return;
     }
     // Successful change: the changed tree (if any) must have been unreserved and matching
